@@ -133,3 +133,12 @@ def hot(*args, **kwargs):
     """Same as hit under another three-letter name (equal-length content swaps in C02)."""
     LOG.append(("hot", args, kwargs))
     return ("hot-result",) + tuple(args)
+
+
+def nested_load(blob, adds=None):
+    """A reconstructor an application may allow-list: it unpickles an embedded blob with the allow-listing unpickler and
+    additions of its own (C11: an unpickler constructed while another one is loading)."""
+    import io
+    from fickling.ml import FicklingMLUnpickler
+    LOG.append(("nested_load", (len(blob), tuple(adds or ())), {}))
+    return FicklingMLUnpickler(io.BytesIO(blob), also_allow=list(adds) if adds else None).load()
